@@ -287,10 +287,13 @@ package hybridbuffer
 //@   ghostset lastcount := result
 //@   ensures result >= 0 && lastcount == result
 //@   loop 1: invariant -1 <= rangeindex && 0 <= numChunks && numChunks <= rangeindex + 1
-// set-up / tear-down of the per-entry operator: trusted, they touch neither the list nor the count
+// set-up / tear-down of the per-entry operator: a new operator is valid, its gauges start at zero (also when the metric
+// creator is reused), quota and matcher are the ones given
 //@ func newChunkOperator(parentLogger logger.Logger, path string, matchChunkID func(string) bool, metricCreator promreg.MetricCreator, maxTotalBytes int64) chunkOperator
-//@   flag trusted
-//@   modifies mval
+//@   requires matchChunkID != nil && metricCreator != nil
+//@   modifies mval, fdname, nopenfd
+//@   ensures[new-operator-is-valid-with-empty-gauges] validopv(result) && mval[ref(result.metrics.persistentChunks)] == 0 && mval[ref(result.metrics.persistentChunkBytes)] == 0
+//@   ensures[new-operator-keeps-its-arguments] result.maxTotalBytes == maxTotalBytes && result.matchChunkID === matchChunkID
 //@ func (op *chunkOperator) Close()
 //@   requires validop(op)
 //@   modifies mval[ref(op.metrics.ioErrorsTotal)], op.maybeDir.*
